@@ -485,7 +485,7 @@ def r4_result(ctx, chk, rule="C07.4", order_matters=True):
     if isinstance(val, ast.Call) and call_name(val) == "sorted" and val.args:
         sorted_by, inner = "sorted() at the return", val.args[0]
         compr = inner
-        if isinstance(inner, ast.Name):
+        if isinstance(inner, ast.Name) and inner.id != s.visited_name:
             defs = cfg.defs_reaching(ret, inner.id)
             if len(defs) == 1 and isinstance(next(iter(defs)), ast.Assign):
                 compr = next(iter(defs)).value
@@ -526,6 +526,14 @@ def r4_result(ctx, chk, rule="C07.4", order_matters=True):
                           expected="last structural operation before `return %s` is %s.sort()" % (R, R),
                           found="mutators on %s: %s" % (R, [norm_stmt(m) for m in muts]), construct="reverse_dfs result unsorted")
             return
+    elif isinstance(val, (ast.ListComp, ast.GeneratorExp, ast.SetComp)) or (isinstance(val, ast.Call) and call_name(val) in ("list", "tuple") and val.args):
+        # the collection is returned as built: nothing sorts it
+        compr = val if not isinstance(val, ast.Call) else val.args[0]
+        if order_matters:
+            chk.violation(rule, f.where(ret), "the result `%s` is returned as it was built: it is not sorted" % src(val)[:80],
+                          expected="sorted(...) / .sort() before the return", found=src(val)[:100], construct="reverse_dfs result unsorted")
+            return
+        sorted_by = "(order not required by this property)"
     else:
         chk.undecided(rule, f.where(ret), "return value `%s` not recognised" % src(val))
         return
